@@ -339,7 +339,7 @@ class C04(Prop):
     prop_file = "Props/C04.v"
     module = "Props.C04"
     gen_deps = ["Table", "Style", "Render", "Palette", "Svg", "Roff", "Git", "Ls", "ParseCfg",
-                "ParserFn", "StripFn", "WinconFn", "LossyFn", "LsFn", "GitFn", "RoffFn"]
+                "ParserFn", "StripFn", "WinconFn", "LossyFn", "LsFn", "GitFn", "RoffFn", "Utf8parseFn"]
     harness = ("h-core", "hcore")
     shard_min = 400
     nontrivial_rule = (
@@ -356,7 +356,10 @@ class C04(Prop):
         "two-valued, corners, off-by-one), svgraw (byte-for-byte) over extreme palettes / default colours, roffo / roffcolor, rnd / rnc / rne / rnr (extreme styles x the whole flag grid), "
         "pc default; strings of ~64 KiB through c02 / sb / ss / wx / drv / strm / git / ls / roffo / svgraw / pc.  "
         "non-trivial = distinct case line whose byte-string fields hold ESC, a control, DEL or a byte >= 0x80 (for the token kinds rnd.. / lossy: every distinct line)")
-    trusted = ["third-party utf8parse automaton, cansi 2.2.1, roff 0.2.1, html-escape: transcribed in the models, tied by these runs; unicode-width: oracle (svgraw), not compared",
+    trusted = ["cansi 2.2.1, roff 0.2.1, html-escape: transcribed in the models, tied by these runs; unicode-width: oracle (svgraw), not compared",
+               "third-party utf8parse automaton: translated from the registry source of the version Cargo.lock pins (tools/gen_fn_utf8parse.py; source = checksummed archive = what cargo metadata "
+               "reports for the harness crates) and proved equal to Model/Utf8parse.v; trusted: cargo builds the harness from that directory, char::from_u32_unchecked = identity (precondition proved: "
+               "c04_translated_utf8parse_unchecked_char_is_scalar)",
                "std::panic::catch_unwind in every harness: a panic inside a case is the result PANIC (an abort -- stack overflow, allocation failure, double panic -- ends the harness "
                "process: the run then fails as a whole, which the runner reports as a broken run, never as a pass)",
                "cargo profiles of the harness crates: dev = opt-level 1, overflow-checks = true, debug-assertions = true; release = opt-level 2, both false"]
